@@ -415,6 +415,97 @@ func runX6(p *an.Prog, r *an.Result) {
 			}
 		})
 	}
+	// functions that hand the lookup's ok on as one of their results are lookups themselves:
+	// every call of them must look at that result too (to a fixpoint over wrappers of wrappers)
+	wrappers := map[*ssa.Function]int{}
+	okUsed := func(tuple ssa.Value, idx int, self *ssa.Function) (used bool) {
+		if tuple.Referrers() == nil {
+			return false
+		}
+		for _, u := range *tuple.Referrers() {
+			ex, ok := u.(*ssa.Extract)
+			if !ok || ex.Index != idx || ex.Referrers() == nil {
+				continue
+			}
+			for _, uu := range *ex.Referrers() {
+				switch x := uu.(type) {
+				case *ssa.If, *ssa.Store:
+					used = true
+				case *ssa.Return:
+					used = true
+					for i, res := range resultsOf(x) {
+						if res == ssa.Value(ex) {
+							if _, had := wrappers[self]; !had {
+								wrappers[self] = i
+							}
+						}
+					}
+				case *ssa.UnOp, *ssa.BinOp, *ssa.Phi:
+					used = true // negated / combined / merged into a condition
+				}
+			}
+		}
+		return used
+	}
+	for _, fn := range p.Funcs {
+		if isMainPkg(fn) {
+			continue
+		}
+		an.EachInstr(fn, func(in ssa.Instruction) {
+			if lk, ok := in.(*ssa.Lookup); ok && lk.CommaOk {
+				d := describe(p, lk.X)
+				for _, sfx := range []string{".tags", ".blockDefs", ".filters", ".Cache"} {
+					if strings.HasSuffix(d, sfx) {
+						okUsed(lk, 1, fn)
+					}
+				}
+			}
+		})
+	}
+	checked := map[*ssa.Call]bool{}
+	for changed := true; changed; {
+		changed = false
+		n := len(wrappers)
+		for _, fn := range p.Funcs {
+			if isMainPkg(fn) {
+				continue
+			}
+			name := an.FuncName(fn)
+			an.EachInstr(fn, func(in ssa.Instruction) {
+				c, ok := in.(*ssa.Call)
+				if !ok || checked[c] {
+					return
+				}
+				var w *ssa.Function
+				if sc := c.Call.StaticCallee(); sc != nil {
+					if _, ok := wrappers[sc]; ok {
+						w = sc
+					}
+				} else if c.Call.IsInvoke() {
+					for cand := range wrappers {
+						if cand.Signature.Recv() != nil && cand.Name() == c.Call.Method.Name() {
+							if it, ok := c.Call.Value.Type().Underlying().(*types.Interface); ok && types.Implements(cand.Signature.Recv().Type(), it) {
+								w = cand
+							}
+						}
+					}
+				}
+				if w == nil {
+					return
+				}
+				checked[c] = true
+				r.Counts["registry lookups"]++
+				if okUsed(c, wrappers[w], fn) {
+					r.OK(name, "result of "+an.FuncName(w)+" is checked", c.Pos(), "the ok result is branched on or returned")
+				} else {
+					r.Bad(name, "call of "+an.FuncName(w)+" ignores ok", c.Pos(), "a missing registry entry must be handled, not used as a zero value")
+				}
+			})
+		}
+		if len(wrappers) != n {
+			changed = true
+		}
+	}
 	r.Floor("registry lookups", 4)
 }
 
@@ -458,7 +549,7 @@ func runX7(p *an.Prog, r *an.Result) {
 					return false
 				}
 				for _, pair := range [][2]ssa.Value{{b.X, b.Y}, {b.Y, b.X}} {
-					if !isPkgType(pair[0].Type(), "reflect", "Kind") {
+					if !isPkgType(pair[0].Type(), "reflect", "Kind") || !kindOfWhole(pair[0], 0) {
 						continue
 					}
 					if c, ok := an.ConstInt(pair[1]); ok {
@@ -820,6 +911,45 @@ func containerDerived(container map[ssa.Value]bool, v ssa.Value) bool {
 	}) {
 		if container[o] {
 			return true
+		}
+	}
+	return false
+}
+
+// kindOfWhole: v is the reflect.Kind of a value itself - reflect.TypeOf(x).Kind(),
+// reflect.ValueOf(x).Kind() or reflect.ValueOf(x).Type().Kind() - and not of its
+// element, key or field type.
+func kindOfWhole(v ssa.Value, depth int) bool {
+	if depth > 6 {
+		return false
+	}
+	if ph, ok := v.(*ssa.Phi); ok {
+		for _, e := range ph.Edges {
+			if !kindOfWhole(e, depth+1) {
+				return false
+			}
+		}
+		return true
+	}
+	c := an.CallOf(v)
+	if c == nil {
+		return false
+	}
+	recv := func() ssa.Value {
+		if c.IsInvoke() {
+			return c.Value
+		}
+		if len(c.Args) > 0 {
+			return c.Args[0]
+		}
+		return nil
+	}
+	switch an.CallName(c) {
+	case "reflect.TypeOf", "reflect.ValueOf":
+		return true
+	case "(reflect.Type).Kind", "(reflect.Value).Kind", "(reflect.Value).Type", "(*reflect.rtype).Kind":
+		if x := recv(); x != nil {
+			return kindOfWhole(x, depth+1)
 		}
 	}
 	return false
